@@ -183,3 +183,107 @@ Proof.
   destruct H as (H1 & <- & <- & _). cbn [fst snd]. split; [|reflexivity].
   apply flush_links_Rcore. apply flush_links_Rcore. apply fold_add_link_Rcore. exact H1.
 Qed.
+
+(* ====================================================================== *)
+(* index_batch_crawl                                                      *)
+(* ====================================================================== *)
+
+Definition srcM (src : bytes) (st : traph * N * created * list bytes) :=
+  let '(s, n, c, seen) := st in
+  if mem_bytes src seen then (updl set_crawled src s, n, c, seen)
+  else let '(s', n', c') := add_page_int src true s in (s', n + n', c ++ c', src :: seen).
+Definition srcA (src : bytes) (st : astate * N * created * list bytes) :=
+  let '(a, n, c, seen) := st in
+  if mem_bytes src seen then (mark_crawled src a, n, c, seen)
+  else let '(a', n', c') := s_add_page src true a in (a', n + n', c ++ c', src :: seen).
+
+Lemma src_Inv4 : forall src X Y, wf_lru src -> Inv4 X Y -> Inv4 (srcM src X) (srcA src Y).
+Proof.
+  intros src [[[s n] c] seen] [[[a n'] c'] seen'] Hl HI.
+  pose proof (see_Inv4 true src _ _ Hl HI) as Hsee.
+  destruct HI as (HR & <- & <- & <- & Hseen).
+  unfold srcM, srcA. unfold seeM, seeA in Hsee.
+  destruct (mem_bytes src seen) eqn:E; [|exact Hsee].
+  apply mem_bytes_In in E. apply Hseen in E.
+  apply in_map_iff in E. destruct E as ([k cr] & Ek & Hin). cbn [fst] in Ek. subst k.
+  apply (R_pages s a HR src cr Hl) in Hin. destruct Hin as (d & Hd & Hpg & _).
+  cbn. split; [apply (set_crawled_Rcore s a src d HR Hl Hd Hpg)|]. repeat (split; [reflexivity|]).
+  intros x Hx. apply In_fst_aset. right. apply Hseen. exact Hx.
+Qed.
+
+Definition Inv5 (X : traph * N * created * list bytes * list (bytes * list bytes))
+                (Y : astate * N * created * list bytes) : Prop :=
+  let '(s, n, c, seen, _) := X in Inv4 (s, n, c, seen) Y.
+
+Lemma add_link_Inv4 : forall p s n c seen a n' c' seen',
+  Inv4 (s, n, c, seen) (a, n', c', seen') -> Inv4 (s, n, c, seen) (add_link p a, n', c', seen').
+Proof.
+  intros p s n c seen a n' c' seen' (HR & H1 & H2 & H3 & H4).
+  cbn. split; [apply add_link_Rcore; exact HR|]. auto.
+Qed.
+
+Lemma store_links_Inv4 : forall out path tg s n c seen Y,
+  Inv4 (s, n, c, seen) Y -> Inv4 (store_links out path tg s, n, c, seen) Y.
+Proof.
+  intros out path tg s n c seen [[[a n'] c'] seen'] (HR & H1 & H2 & H3 & H4).
+  cbn. split; [apply store_links_Rcore; exact HR|]. auto.
+Qed.
+
+Lemma batch_inner : forall src tgts s n c seen ins Y, Forall wf_lru tgts -> Inv4 (s, n, c, seen) Y ->
+  Inv5 (fold_left (fun '(s, n, c, seen, ins) t =>
+                     let '(s, n, c, seen) :=
+                         if mem_bytes t seen then (s, n, c, seen)
+                         else let '(s', n', c') := add_page_int t false s in
+                              (s', n + n', c ++ c', t :: seen) in
+                     (s, n, c, seen, mm_add t src ins))
+                  tgts (s, n, c, seen, ins))
+       (fold_left (fun '(a, n, c, seen) t =>
+                     let '(a, n, c, seen) :=
+                         if mem_bytes t seen then (a, n, c, seen)
+                         else let '(a', n', c') := s_add_page t false a in
+                              (a', n + n', c ++ c', t :: seen) in
+                     (add_link (src, t) a, n, c, seen))
+                  tgts Y).
+Proof.
+  intros src tgts s n c seen ins Y Htg HI.
+  apply (fold_left_rel _ _ _ Inv5 wf_lru); [exact Htg| |exact HI].
+  intros t [[[[s3 n3] c3] seen3] ins3] [[[a3 n3'] c3'] seen3'] Ht HI3. unfold Inv5 in HI3.
+  pose proof (see_Inv4 false t _ _ Ht HI3) as H3. unfold seeM, seeA in H3.
+  destruct HI3 as (_ & _ & _ & <- & _).
+  destruct (mem_bytes t seen3).
+  - unfold Inv5. apply add_link_Inv4. exact H3.
+  - destruct (add_page_int t false s3) as [[s4 n4] c4].
+    destruct (s_add_page t false a3) as [[a4 n4'] c4'].
+    unfold Inv5. apply add_link_Inv4. exact H3.
+Qed.
+
+Theorem batch_crawl_Rcore : forall data s a,
+  Forall (fun p => wf_lru (fst p) /\ Forall wf_lru (snd p)) data -> Rcore s a ->
+  Rcore (fst (batch_crawl data s)) (fst (s_batch data a)) /\
+  snd (batch_crawl data s) = snd (s_batch data a).
+Proof.
+  intros data s a Hwf HR. unfold batch_crawl, s_batch.
+  match goal with |- context [fold_left ?F data (s, 0, [], [], [])] => set (FM := F) end.
+  match goal with |- context [fold_left ?F data (a, 0, [], [])] => set (FA := F) end.
+  assert (H : Inv5 (fold_left FM data (s, 0, [], [], [])) (fold_left FA data (a, 0, [], []))).
+  { apply (fold_left_rel _ _ _ Inv5 (fun p => wf_lru (fst p) /\ Forall wf_lru (snd p))); [exact Hwf| |].
+    - intros [src tgts] [[[[s0 n0] c0] seen0] ins0] [[[a0 n0'] c0'] seen0'] [Hsrc Htg] HI.
+      cbn [fst snd] in Hsrc, Htg. unfold Inv5 in HI.
+      pose proof (src_Inv4 src _ _ Hsrc HI) as H1. unfold srcM, srcA, updl in H1.
+      destruct HI as (_ & _ & _ & <- & _).
+      unfold FM, FA.
+      destruct (mem_bytes src seen0).
+      + pose proof (batch_inner src tgts _ _ _ _ ins0 _ Htg H1) as H2.
+        match type of H2 with Inv5 ?A ?B => destruct A as [[[[s2 n2] c2] seen2] ins2] end.
+        unfold Inv5 in *. apply store_links_Inv4. exact H2.
+      + destruct (add_page_int src true s0) as [[s1 n1] c1].
+        destruct (s_add_page src true a0) as [[a1 n1'] c1'].
+        pose proof (batch_inner src tgts _ _ _ _ ins0 _ Htg H1) as H2.
+        match type of H2 with Inv5 ?A ?B => destruct A as [[[[s2 n2] c2] seen2] ins2] end.
+        unfold Inv5 in *. apply store_links_Inv4. exact H2.
+    - cbn. split; [exact HR|]. repeat (split; [reflexivity|]). intros x []. }
+  destruct (fold_left FM data (s, 0, [], [], [])) as [[[[s1 n1] c1] seen1] ins1].
+  destruct (fold_left FA data (a, 0, [], [])) as [[[a1 n1'] c1'] seen1'].
+  destruct H as (H1 & <- & <- & _). cbn [fst snd]. split; [|reflexivity].
+  apply flush_links_Rcore. exact H1.
+Qed.
